@@ -108,6 +108,12 @@ def run(C, R):
                             inner = E.project(x, (('dc', 'Some'), '0'))
                             kk = E.variant_known(path.facts, x)
                             woke = any(w['k'] == 'wake' and w['waker'] in (x, inner) for w in seg) or kk == ('eq', 'None')
+                            # handing the waker on (to the caller, or to a collector that wakes after the
+                            # lock is released) is as good as waking it here; C18 judges any allocation
+                            escaped = contains(path.ret, x) or any(
+                                c['k'] == 'call' and c['name'] not in ('take',) and
+                                any(contains(a, x) or contains(a, inner) for a in c['args']) for c in seg)
+                            woke = woke or escaped
                         if d == 1:
                             if marked and removed and woke:
                                 R.ok('C15.R2', '%s|due: Expired+wake+remove|%s' % (m['path'], pc))
